@@ -9,14 +9,13 @@
      isaac/suffrage_operation.go SuffrageExpelFact.IsValid, SuffrageExpelOperation.IsValid/NodeSigns, IsValidExpelWithSuffrage
      base/base_operation.go      BaseNodeOperation.IsValid (signs, duplicated sign nodes)
      base/vote.go                FindVoteResult / FindMajority (local small tally model; the tally itself is C01's subject)
-     base/threshold.go           Threshold.Threshold (integer form proved in C02), NumberOfFaultyNodes (float64, Flocq)
+     base/threshold.go           Threshold.Threshold (integer form proved in C02); NumberOfFaultyNodes (float64): Float.v
 
    Abstractions (trusted, see checks/C03.json): node addresses, public keys, fact hashes and expel-fact hashes are
    opaque identifiers [N]; "the signature of this sign verifies under the key it names" is a boolean attribute of the sign
    (what the harness produces by signing with the right / a wrong network id).  No proofs in this file. *)
 From Coq Require Import ZArith NArith List Bool.
-From Flocq Require Import IEEE754.BinarySingleNaN IEEE754.Binary IEEE754.Bits.
-From MV Require Import C02.Model Gen.C03.
+From MV Require Import Gen.C03.
 Import ListNotations.
 Open Scope Z_scope.
 
@@ -77,8 +76,10 @@ Definition nonempty {A} (l : list A) : bool := match l with [] => false | _ => t
 
 Definition len {A} (l : list A) : Z := Z.of_nat (length l).
 
-(* Threshold.Threshold(n) for a threshold of th10 tenths (C02: uint64 arithmetic) *)
-Definition thr (n th10 : Z) : Z := thr_int n th10.
+(* Threshold.Threshold(n) for a threshold of th10 tenths, Go uint64 arithmetic written out.  Same function as
+   C02.Model.thr_int (Proofs.thr_is_C02), repeated here so that evaluating this file does not load Flocq. *)
+Definition two64 : Z := 2 ^ 64.
+Definition thr (n th10 : Z) : Z := (((n * th10) mod two64 + 999) mod two64) / 1000.
 
 (* Go uint subtraction *)
 Definition usub (a b : Z) : Z := (a - b) mod two64.
@@ -296,36 +297,14 @@ Definition big_expel (suf : suffrage) (v : vp) : bool :=
   | _ => false
   end.
 
-(* ------------------------------------------------------------------ base.NumberOfFaultyNodes (float64) *)
-
-Definition b64_100 : binary64 := b64_of_Z 100.
-
-(* Go int(x) for finite x: truncation toward zero *)
-Definition trunc_b64 (x : binary64) : option Z :=
-  match x with
-  | B754_zero _ _ _ => Some 0
-  | B754_finite _ _ s m e _ =>
-      let mag := if 0 <=? e then Z.pos m * 2 ^ e else Z.pos m / 2 ^ (- e) in
-      Some (if s then - mag else mag)
-  | _ => None
-  end.
-
-(* NumberOfFaultyNodes(n, Threshold(k/10)) = int(float64(n) - float64(n)*(threshold/MaxThreshold)) *)
-Definition nfaulty_float (n k : Z) : option Z :=
-  if n <? 1 then Some 0
-  else if threshold_max10 <=? k then Some 0
-  else
-    let fn := b64_of_Z n in
-    trunc_b64 (b64_minus mode_NE fn (b64_mult mode_NE fn (b64_div mode_NE (b64_of_tenths k) b64_100))).
+(* base.NumberOfFaultyNodes (float64) is modelled in Float.v (Flocq); it is not used by the validation. *)
 
 (* ------------------------------------------------------------------ correspondence *)
 
 Inductive case :=
-| CVp (suf : suffrage) (v : vp) (obs_wf obs_vs : bool)     (* IsValid == nil, IsValidVoteproofWithSuffrage == nil *)
-| CFaulty (n k : Z) (obs : Z).                             (* NumberOfFaultyNodes(n, k/10) *)
+| CVp (suf : suffrage) (v : vp) (obs_wf obs_vs : bool).    (* IsValid == nil, IsValidVoteproofWithSuffrage == nil *)
 
 Definition check (c : case) : bool :=
   match c with
   | CVp suf v ow ov => Bool.eqb (wf v) ow && (unstable suf v || Bool.eqb (valid_suf suf v) ov)
-  | CFaulty n k obs => match nfaulty_float n k with Some f => Z.eqb f obs | None => false end
   end.
